@@ -1,3 +1,2 @@
 package main
 
-func extractExtractors()  {}
